@@ -5,7 +5,8 @@ use crate::error::{Error, ErrorKind};
 pub struct FuelTracker {
     // The initial fuel level.
     initial: u64,
-    remaining: isize,
+    // The fuel consumed so far, never more than the initial level.
+    consumed: u64,
 }
 
 impl FuelTracker {
@@ -14,7 +15,7 @@ impl FuelTracker {
     pub fn new(fuel: u64) -> FuelTracker {
         FuelTracker {
             initial: fuel,
-            remaining: fuel as isize,
+            consumed: 0,
         }
     }
 
@@ -22,8 +23,11 @@ impl FuelTracker {
     pub fn track(&mut self, instr: &Instruction) -> Result<(), Error> {
         let fuel_to_consume = fuel_for_instruction(instr);
         if fuel_to_consume != 0 {
-            self.remaining -= fuel_to_consume;
-            if self.remaining <= 0 {
+            self.consumed = self
+                .consumed
+                .saturating_add(fuel_to_consume)
+                .min(self.initial);
+            if self.consumed == self.initial {
                 return Err(Error::from(ErrorKind::OutOfFuel));
             }
         }
@@ -32,17 +36,17 @@ impl FuelTracker {
 
     /// Returns the remaining fuel.
     pub fn remaining(&self) -> u64 {
-        self.remaining as _
+        self.initial - self.consumed
     }
 
     /// Returns the consumed fuel.
     pub fn consumed(&self) -> u64 {
-        self.initial.saturating_sub(self.remaining())
+        self.consumed
     }
 }
 
 /// How much fuel does an instruction consume?
-fn fuel_for_instruction(instruction: &Instruction) -> isize {
+fn fuel_for_instruction(instruction: &Instruction) -> u64 {
     match instruction {
         Instruction::BeginCapture(_)
         | Instruction::PushLoop(_)
